@@ -50,3 +50,70 @@ package linter
 //@   requires c != nil
 //@   requires @version-parses validGoVersion(version)
 //@   assigns c.GoVersion
+
+// ---- C14: parameters and thresholds; C07: diagnostics
+
+//@ func (CheckerParams).Int
+//@   prop C14
+//@   nosafety presence and dynamic type of parameters are validated at registration (addChecker)
+//@   pure
+//@   ensures @reads-param result == unbox(params[pname].Value, "int")
+
+//@ func (CheckerParams).Bool
+//@   prop C14
+//@   nosafety presence and dynamic type of parameters are validated at registration (addChecker)
+//@   pure
+//@   ensures @reads-param result == unbox(params[pname].Value, "bool")
+
+//@ func (CheckerParams).String
+//@   prop C14
+//@   nosafety presence and dynamic type of parameters are validated at registration (addChecker)
+//@   pure
+//@   ensures @reads-param result == unbox(params[pname].Value, "string")
+
+// UnknownType is set once by its initializer (types.Typ[types.Invalid]) and never reassigned.
+//@ readonly UnknownType @sentinel-non-nil !isNilIface(value)
+
+//@ spec typeOfSpec(ctx *CheckerContext, x ast.Expr) types.Type = ite(isNilIface(infoTypeOf(ctx.TypesInfo, x)), UnknownType, infoTypeOf(ctx.TypesInfo, x))
+
+//@ func (*CheckerContext).TypeOf
+//@   prop C14 C01
+//@   requires ctx != nil && ctx.Context != nil && ctx.TypesInfo != nil
+//@   pure
+//@   ensures @typeof-spec result == typeOfSpec(ctx, x)
+//@   ensures @never-nil !isNilIface(result)
+
+// safeSizesInfoSizeof recovers from a panic inside go/types: deferred closures are not interpreted, its contract is assumed.
+//@ func (*CheckerContext).safeSizesInfoSizeof
+//@   trusted uses recover()
+//@   pure
+//@   ensures @sizeof-or-fail ok == sizeofSucceeds(ctx.SizesInfo, typ) && (ok ==> size == sizesSizeof(ctx.SizesInfo, typ)) && (!ok ==> size == 0)
+
+//@ spec sizeOKSpec(ctx *CheckerContext, typ types.Type) bool = !typeIs(typ, "*types.TypeParam") && !(typeIs(typ, "*types.Named") && namedTypeParams(cast(typ, "*types.Named")) != nil) && sizeofSucceeds(ctx.SizesInfo, typ)
+
+//@ func (*CheckerContext).SizeOf
+//@   prop C14 C01
+//@   requires ctx != nil && ctx.Context != nil
+//@   requires @typ-non-nil !isNilIface(typ)
+//@   pure
+//@   ensures @ok-iff result1 <==> sizeOKSpec(ctx, typ)
+//@   ensures @actual-size result1 ==> result0 == sizesSizeof(ctx.SizesInfo, typ)
+//@   ensures @zero-when-not-ok !result1 ==> result0 == 0
+
+// The Warn family appends one Warning; `warned` is the ghost log of emitted diagnostics.
+//@ func (*CheckerContext).Warn
+//@   prop C07
+//@   emits warned(node)
+
+//@ func (*CheckerContext).WarnFixable
+//@   prop C07
+//@   emits warned(node)
+
+// getCheckersInfo hands out shallow copies: the Params map object is shared with the prototype on purpose
+// (constructors read the prototype's map, front-ends write parameter values through the copies).
+//@ func getCheckersInfo
+//@   prop C14 C17
+//@   nosafety prototypes hold non-nil infos (addChecker)
+//@   loop 1 body @appends-one len(infoList) == old(len(infoList)) + 1 && infoList[len(infoList) - 1] != nil
+//@   loop 1 body @copy-shares-params infoList[len(infoList) - 1].Params == proto.info.Params
+//@   loop 1 body @copy-keeps-name-and-tags infoList[len(infoList) - 1].Name == proto.info.Name && infoList[len(infoList) - 1].Tags == proto.info.Tags
